@@ -460,3 +460,18 @@ def elementwise_views(ctx, defn):
         if calls or yields:
             views.append({"kind": "loop", "source": render(strip_iter(nt[2][0])), "calls": calls, "yields": yields, "site": t["sp"]})
     return views
+
+
+def unary_result(ctx, callable_term):
+    """what a one-argument callable (closure literal or function item, e.g. `.map(|W(x)| x)` / `.map(W::into_item)`) returns,
+    rendered with its argument written `$1`; None if it cannot be summarised"""
+    if callable_term[0] == "agg" and callable_term[1].startswith("closure:"):
+        cb, _ = mir.closure_body(ctx.facts, callable_term)
+        return render(cb.return_term()) if cb else None
+    if callable_term[0] == "fnitem":
+        rec = ctx.facts.bodies.get(callable_term[1])
+        if rec is None or rec["argc"] != 1:
+            return None
+        fb = ctx.ibody(callable_term[1])
+        return render(mir.subst(fb.return_term(), lambda q: ("cparam", 1) if q[0] == "param" and q[1] == 1 else None))
+    return None
